@@ -197,3 +197,59 @@ def _followup(prop, spec, tier, mon, div, workdir):
                         failing_histories=len(fails), implementation_trace=obs.split(";"), model_trace=model.split(";"),
                         klass=classify(prop, small))
     return None
+
+
+def sequentialize(prop, spec, history, observed, runtag):
+    """history = threaded history line (mode P<t>), observed = its stamped results.  Candidates:
+    the operations in generation order and in order of their start stamps, executed sequentially
+    (mode A) on the real crate; the property's monitor decides."""
+    mon = spec.get("monitor")
+    parts = history.split(";")
+    if len(parts) < 4 or not mon:
+        return None
+    head, ops = parts[:2] + ["A"], parts[3:]
+    cands = [";".join(head + ops)]
+    ents = observed.split(";")
+    stamped = []
+    for op, e in zip(ops, ents):
+        try:
+            stamped.append((int(e.split("|")[0].split()[0]), op))
+        except Exception:
+            pass
+    if stamped:
+        stamped.sort()
+        cands.append(";".join(head + [o for _, o in stamped]))
+    flavour = "sync"
+    for fl in ("shared", "growing", "sync"):
+        if "-%s-" % fl in runtag:
+            flavour = fl
+    workdir = tempfile.mkdtemp(prefix="seq-", dir=BUILD)
+    try:
+        if head[0] == "mpmc":
+            from check import retag_line
+            cands = [retag_line(c) for c in cands]
+        # keep the longest contract-respecting prefix of every candidate
+        good = []
+        for c in cands:
+            cp = c.split(";")
+            tr = subprocess.run([MODELRUN, "print", "-"], input=c + "\n", capture_output=True, text=True).stdout.strip().split(";")
+            n = 0
+            for t in tr:
+                if "r:99" in t:
+                    break
+                n += 1
+            if n:
+                good.append(";".join(cp[:3 + n]))
+        if not good:
+            return None
+        fails = _run_monitor(mon["id"], good, flavour, workdir)
+        if not fails:
+            return None
+        fails.sort(key=lambda x: (x[0], len(x[1])))
+        small = shrink(mon["id"], fails[0][1], flavour, workdir)
+        obs = subprocess.run([HARNESS, flavour], input=small + "\n", capture_output=True, text=True).stdout.strip()
+        model = subprocess.run([MODELRUN, "print", "-"], input=small + "\n", capture_output=True, text=True).stdout.strip()
+        return dict(history=small, flavour=flavour, monitor=mon["id"], run=runtag, found_by="sequential replay of a non-linearizable threaded run",
+                    implementation_trace=obs.split(";"), model_trace=model.split(";"), klass=classify(prop, small))
+    finally:
+        shutil.rmtree(workdir, ignore_errors=True)
